@@ -270,21 +270,20 @@ pub fn generate(sink: &mut Sink, seed: u64, thorough: bool) {
     for (a, b) in [(1100usize, 8usize), (1000, 1), (1150, 40), (980, 16), (1200, 3)] {
         tiny.push(Program { guid: "tiny".into(), stmts: vec![Stmt::Blob(Data::Gen(a, 5)), Stmt::Blob(Data::Gen(b, 9)), Stmt::Fin] });
     }
+    // sessions that finalize twice: the second XML has the same length as the first and differs in bytes that span
+    // page boundaries — an accepted crash image must equal the device state at the end of ONE of the finalize calls
+    for n in [0usize, 7, 300, 1500, 2500] {
+        let proto = vec![Rec { name: RName::Std("cartesianX".into()), dt: DT::F32(None, None) }, Rec { name: RName::Std("cartesianY".into()), dt: DT::F32(None, None) }, Rec { name: RName::Std("cartesianZ".into()), dt: DT::F32(None, None) }];
+        let body = vec![PcStmt::P(vec![Val::F(1f32.to_bits()), Val::F(2f32.to_bits()), Val::F(3f32.to_bits())])];
+        tiny.push(Program { guid: "twice".into(), stmts: vec![Stmt::Pc { guid: "pc".into(), proto, body, end: true }, Stmt::Cm(Some("A".repeat(n))), Stmt::Fin, Stmt::Cm(Some("B".repeat(n))), Stmt::Fin] });
+    }
     for k in 0..ncrash + tiny.len() {
-        let mut prog = if k < tiny.len() {
+        let prog = if k < tiny.len() {
             tiny[k].clone()
         } else {
             let mut g = Gen { rng: &mut rng, exts: vec![], n: 0 };
             g.program(6)
         };
-        // exactly one top-level finalize, at the end (after an earlier finalize the device
-        // legitimately holds a complete, smaller file)
-        let last = prog.stmts.len() - 1;
-        let mut i = 0;
-        prog.stmts.retain(|s| {
-            i += 1;
-            i - 1 == last || !matches!(s, Stmt::Fin | Stmt::FinX(_))
-        });
         let dev = SimDev::new(vec![]);
         dev.set_record(true);
         let run = execute(&prog, &dev);
@@ -293,17 +292,32 @@ pub fn generate(sink: &mut Sink, seed: u64, thorough: bool) {
         }
         let line = prog.case_line(&lv);
         let writes: Vec<(u64, Vec<u8>)> = dev.log().into_iter().filter_map(|e| if let Ev::Write(o, b) = e { Some((o, b)) } else { None }).collect();
-        let complete = run.file.clone();
         let pblobs: Vec<(u64, u64)> = expected_scene(&prog, &run.results).blobs.iter().map(|b| (b.0, b.1)).collect();
-        let full = match guarded(|| reader_digest_blobs(SimDev::new(complete.clone()), 100000, &pblobs)) {
-            Ok(Ok(f)) => f,
-            other => {
-                if std::env::var("E57H_VERBOSE").is_ok() {
-                    eprintln!("crash program skipped: {:?}", other.map(|r| r.map(|s| s.len())));
+        // the complete files of this session: the device at the end of every successful top-level finalize
+        // (obtained by running the program up to that statement)
+        let mut completes: Vec<String> = vec![];
+        {
+            let mut ri = 0usize; // index into results
+            for (si, st) in prog.stmts.iter().enumerate() {
+                let ntok = stmt_tokens(st);
+                if matches!(st, Stmt::Fin | Stmt::FinX(_)) && run.results.get(ri).map(|r| r == "ok").unwrap_or(false) {
+                    let file = if si + 1 == prog.stmts.len() {
+                        run.file.clone()
+                    } else {
+                        let p = Program { guid: prog.guid.clone(), stmts: prog.stmts[..=si].to_vec() };
+                        execute(&p, &SimDev::new(vec![])).file
+                    };
+                    if let Ok(Ok(f)) = guarded(|| reader_digest_blobs(SimDev::new(file.clone()), 100000, &pblobs)) {
+                        completes.push(f);
+                    }
                 }
-                continue;
+                ri += ntok;
             }
-        };
+        }
+        if completes.is_empty() {
+            continue;
+        }
+        let full = completes.last().unwrap().clone();
         // the write that makes the header real: the first write of page 0 whose XML length field is set
         // (later writes of page 0 — the drop of the writer flushes again — carry identical bytes)
         let last_header = writes.iter().position(|(o, b)| *o == 0 && b.len() >= 40 && b[32..40].iter().any(|x| *x != 0)).unwrap_or(0);
@@ -334,7 +348,8 @@ pub fn generate(sink: &mut Sink, seed: u64, thorough: bool) {
                             if before_final {
                                 sink.fail("C15", "crash/accepted-before-finalize", &replay, &format!("an image from before the end of the top-level finalize (write {i} of {}, {c} bytes of it) is accepted by the reader", writes.len()));
                             } else {
-                                let same = same_or_error(&full, &dg);
+                                let same = completes.iter().any(|f| same_or_error(f, &dg));
+                                let _ = &full;
                                 if !same {
                                     sink.fail("C15", "crash/accepted-image-differs", &replay, "an accepted crash image reports content that differs from the complete file");
                                 }
